@@ -120,6 +120,9 @@ func genWorld(seed uint64, tier string, mode string) *Script {
 		if g.p(30) {
 			c.ExtMsg = true
 		}
+		if !o.Select && !o.Burst && g.p(15) {
+			c.PrefixLimit = pick(g, []int{2, 3, 5}) // per family; exceeding it shuts the session down
+		}
 		if o.Burst && g.p(30) {
 			c.V4MP = true // IPv4 unicast announced inside MP_REACH_NLRI: the stored route has no NEXT_HOP attribute
 		}
@@ -338,8 +341,19 @@ func genWorld(seed uint64, tier string, mode string) *Script {
 				}
 				p.Ops = append(p.Ops, Op{Kind: "up", Actor: c.Idx, Delay: g.n(3000)})
 				down[c.Idx] = false
-			case r < 55:
+			case r < 50:
 				p.Ops = append(p.Ops, mkAnn(c))
+			case r < 55:
+				// one UPDATE withdrawing a prefix and announcing another
+				op := mkAnn(c)
+				if op.Family == "ipv4-unicast" && !c.V4MP {
+					// (never the announced prefix itself: RFC 4271 4.3 wants such an UPDATE read as if
+					// the prefix were not withdrawn, gobgp applies the withdrawal last - see DESIGN 10.3)
+					if wd := pick(g, pool); wd != op.Prefix {
+						op.Kind, op.Arg = "annwd", wd
+					}
+				}
+				p.Ops = append(p.Ops, op)
 			case r < 78:
 				p.Ops = append(p.Ops, mkWd(c))
 			case r < 84 && o.Faults:
@@ -480,6 +494,21 @@ func worldOp(w *simWorld, actor int, op *Op) {
 		}
 		if p.announce(r) {
 			w.probe("announce")
+			w.notePrefixLimit(p, r.Fam)
+		}
+	case "annwd":
+		// one UPDATE that withdraws a prefix and announces another
+		p := w.peers[actor]
+		r := &annRoute{Tag: op.Tag, Fam: famV4, Prefix: op.Prefix, PathID: op.PathID, Spec: op.Attrs, Src: actor}
+		w.mu.Lock()
+		w.tags[op.Tag] = r
+		w.mu.Unlock()
+		if p.cfg.V4MP {
+			return
+		}
+		if p.announceAndWithdraw(r, op.Arg, op.PathID) {
+			w.probe("announce_and_withdraw")
+			w.notePrefixLimit(p, famV4)
 		}
 	case "burst":
 		p := w.peers[actor]
@@ -703,6 +732,33 @@ func worldCheck(w *simWorld, phase int) {
 					if int(a.State.Accepted) != acc {
 						w.violate("C02", "accepted-counter", fmt.Sprintf("p%d %s", p.cfg.Idx, fam), fmt.Sprintf("ListPeer accepted=%d, model says %d of %d pass the loop checks", a.State.Accepted, acc, len(want)))
 					}
+				}
+			}
+		}
+		// ---- C02: prefix-limit accounting: one Cease / Maximum Number of Prefixes Reached per session
+		// whose Adj-RIB-In exceeded the configured maximum, and none otherwise
+		if fam == famV4 {
+			for _, p := range w.peers {
+				if p.cfg.PrefixLimit <= 0 {
+					continue
+				}
+				p.mu.Lock()
+				got := 0
+				for _, n := range p.notifs {
+					if n.Code == 6 && n.Sub == 1 {
+						got++
+					}
+				}
+				want, up := p.limitTrips, p.up
+				hit := p.limitHit
+				p.mu.Unlock()
+				if got < want || (hit && up) {
+					w.violate("C02", "prefix-limit-not-enforced", fmt.Sprintf("p%d limit=%d", p.cfg.Idx, p.cfg.PrefixLimit), fmt.Sprintf("the Adj-RIB-In exceeded the limit %d time(s), %d Cease/Maximum-Prefixes NOTIFICATION(s) were received, session up=%v", want, got, up))
+				} else if got > want {
+					w.violate("C02", "prefix-limit-early", fmt.Sprintf("p%d limit=%d", p.cfg.Idx, p.cfg.PrefixLimit), fmt.Sprintf("%d Cease/Maximum-Prefixes NOTIFICATION(s) received, the model counts %d excess(es)", got, want))
+				}
+				if want > 0 {
+					w.probe("prefix_limit_checked")
 				}
 			}
 		}
@@ -1382,4 +1438,28 @@ func genRestarting(seed uint64, tier string) *Script {
 	sc.Phases = append(sc.Phases, p3)
 	sc.Final = pick(g, []string{"stop", "stopbgp"})
 	return sc
+}
+
+// notePrefixLimit: the model of the prefix limit (C02): the session must be torn down with Cease /
+// Maximum Number of Prefixes Reached exactly when the Adj-RIB-In of a family exceeds the configured
+// maximum after an UPDATE.
+func (w *simWorld) notePrefixLimit(p *simPeer, fam wFamily) {
+	if p.cfg.PrefixLimit <= 0 {
+		return
+	}
+	p.mu.Lock()
+	n := 0
+	for k := range p.sent {
+		if k.Fam == fam {
+			n++
+		}
+	}
+	if n > p.cfg.PrefixLimit && !p.limitHit {
+		p.limitHit = true
+		p.limitTrips++
+		p.mu.Unlock()
+		w.probe("prefix_limit_exceeded")
+		return
+	}
+	p.mu.Unlock()
 }
